@@ -67,6 +67,9 @@ def check(tier):
     run.cov["evaluations"] = len(cases) + len(abstract)
     run.cov["hook_events"] = len([e for e in events if e["ev"] not in ("input", "return", "compare")])
     run.cov["compare_events"] = len([e for e in events if e["ev"] == "compare"])
+    run.cov["compilations_per_backend"] = {b: len([e for e in ins if e.get("backend") == b]) for b in ("rasn", "typescript")}
+    if not all(run.cov["compilations_per_backend"].values()):
+        raise ToolError("a backend was not exercised")
     run.cov["distinct_nontrivial"] = len({e["asn"] for e in ins})
     run.cov["injected_faults"] = {}
     for e in ins:
@@ -77,7 +80,7 @@ def check(tier):
     run.cov["exhaustive"] = False
     run.cov["rule"] = ("(a) every input of the bounded Pipeline model (2 modules x 2 names, <= 2 definitions, kinds type/value/class, "
                        "faults none/validator/generator, same names across modules, both hand-over orders), made concrete; (b) module sets from Notation.tla (TLC simulation, seeded) with 1..3 injected faults each (REAL / VideotexString / "
-                       "inverted range / MACRO definitions, and a definition named like one of another module); each is compiled with "
+                       "inverted range / MACRO definitions, and a definition named like one of another module); each is compiled by both backends (rasn, TypeScript) with "
                        "the hooks recording and once more without the faults; non-trivial = distinct module-set text")
     run.cov["samples"] = [{"asn": e["asn"][:600]} for e in ins[:3]]
     run.assumptions = ["the hook events are emitted where Pipeline.tla has its actions (rasn-compiler/src/verif.rs, cfg rasn_verif)",
